@@ -15,6 +15,7 @@
 //  5. gopool.Go(f) -> vsGo("<fn>:go#k", f);  X.Wait() on a field named asyncGoroutineWg -> vsWgWait(label, &X)
 //     X.Add(n)/X.Done() on asyncGoroutineWg -> vsWgAdd(&X, n) / vsWgAdd(&X, -1)
 //  7. functions listed under "entry" (need not be in "funcs"): vsEntry("<fn>", <first parameter>) as first statement
+//  8. functions listed under "everyStmt" ("T.f" or "T.*"): vsYield("<fn>:stmt#k") in front of every statement
 //  6. in functions listed under "preSelect": vsYield("<fn>:select#k") in front of every select statement
 package main
 
@@ -40,6 +41,11 @@ type fileCfg struct {
 	NoLock []string `json:"noLock"`
 	// PreSelect: functions (subset of funcs) in which a scheduling point "<fn>:select#k" is put in front of every select
 	PreSelect []string `json:"preSelect"`
+	// AddrLocks: names of mutex fields held by value (x.f.Lock() -> vsLock(label, &x.f))
+	AddrLocks []string `json:"addrLocks"`
+	// EveryStmt: functions ("T.f" or "T.*"; implicitly in funcs) in which a scheduling point "<fn>:stmt#k" precedes
+	// every statement, so that sections which rely on a lock only (no atomics, no raw pointers) can be interleaved
+	EveryStmt []string `json:"everyStmt"`
 	// Entry: functions (need not be in funcs) whose body starts with vsEntry("<fn>", <first parameter>) - an observation
 	// hook for the harness (no scheduling point)
 	Entry []string `json:"entry"`
@@ -59,6 +65,8 @@ type rewriter struct {
 	report    *[]string
 	recvIndex map[string]bool
 	preSelect bool
+	everyStmt bool
+	addrLocks map[string]bool
 }
 
 func main() {
@@ -99,6 +107,15 @@ func main() {
 		for _, t := range fc.RecvIndex {
 			ri[t] = true
 		}
+		addrLocks := map[string]bool{}
+		for _, f := range fc.AddrLocks {
+			addrLocks[f] = true
+		}
+		every := map[string]bool{}
+		for _, fn := range fc.EveryStmt {
+			every[fn] = true
+			want[fn] = true
+		}
 		entry := map[string]bool{}
 		for _, fn := range fc.Entry {
 			entry[fn] = true
@@ -124,7 +141,8 @@ func main() {
 			if rt != "" {
 				found[rt+".*"] = true
 			}
-			rw := &rewriter{fset: fset, fn: full, report: &report, recvIndex: ri, doLocks: !noLock[full], preSelect: preSel[full]}
+			rw := &rewriter{fset: fset, fn: full, report: &report, recvIndex: ri, doLocks: !noLock[full], preSelect: preSel[full], addrLocks: addrLocks,
+				everyStmt: every[full] || (rt != "" && every[rt+".*"])}
 			if ri[rt] {
 				rw.recv = rn
 			}
@@ -216,9 +234,28 @@ func (r *rewriter) block(b *ast.BlockStmt) {
 func (r *rewriter) stmts(list []ast.Stmt) []ast.Stmt {
 	var out []ast.Stmt
 	for _, s := range list {
-		out = append(out, r.stmt(s)...)
+		rs := r.stmt(s)
+		if r.everyStmt && !(len(rs) > 0 && isYield(rs[0])) {
+			if _, decl := s.(*ast.DeclStmt); !decl {
+				out = append(out, r.yieldStmt("stmt"))
+			}
+		}
+		out = append(out, rs...)
 	}
 	return out
+}
+
+func isYield(s ast.Stmt) bool {
+	es, ok := s.(*ast.ExprStmt)
+	if !ok {
+		return false
+	}
+	c, ok := es.X.(*ast.CallExpr)
+	if !ok {
+		return false
+	}
+	id, ok := c.Fun.(*ast.Ident)
+	return ok && id.Name == "vsYield"
 }
 
 func (r *rewriter) stmt(s ast.Stmt) []ast.Stmt {
@@ -322,7 +359,11 @@ func (r *rewriter) stmt(s ast.Stmt) []ast.Stmt {
 					if sel.Sel.Name == "Unlock" {
 						fn, kind = "vsUnlock", "unlock"
 					}
-					n.X = &ast.CallExpr{Fun: ast.NewIdent(fn), Args: []ast.Expr{r.label(kind), sel.X}}
+					var target ast.Expr = sel.X
+					if fs, ok := sel.X.(*ast.SelectorExpr); ok && r.addrLocks[fs.Sel.Name] {
+						target = &ast.UnaryExpr{Op: token.AND, X: sel.X}
+					}
+					n.X = &ast.CallExpr{Fun: ast.NewIdent(fn), Args: []ast.Expr{r.label(kind), target}}
 					return []ast.Stmt{n}
 				}
 			}
